@@ -174,7 +174,7 @@ def make_fns(spec):
     }
 
 
-def build_tawazi(spec, plain=None, dag_kwargs=None, extra_env=None):
+def build_tawazi(spec, plain=None, dag_kwargs=None, extra_env=None, wrap_site=None):
     """exec the source with names bound to xn(...) probes; returns (dag object, env)."""
     from tawazi import Resource, dag, xn
 
@@ -197,6 +197,8 @@ def build_tawazi(spec, plain=None, dag_kwargs=None, extra_env=None):
     env = {"c%d" % i: xns[nd["fn"]] for i, nd in enumerate(spec["nodes"])}
     if extra_env:
         env.update(extra_env)
+    for i, w in (wrap_site or {}).items():
+        env["c%d" % i] = w(env["c%d" % i])
     src = render(spec)
     exec(compile(src, "<%s>" % spec["name"], "exec"), env)  # noqa: S102
     kw = dict(max_concurrency=spec.get("mc", 1), is_async=bool(spec.get("is_async", False)))
